@@ -137,6 +137,21 @@ class Explorer:
             if k['kind'] in ('diverge', 'unmodelled', 'inconsistent', 'none'):
                 common.harness_error('%s cell %s: %s' % (c.leg, c.desc, lbzx.cls_str(k)))
             ropts = {a: b for a, b in opts.items() if a != 'cpu_base'}
+            if k['kind'] == 'horizon':
+                # more scheduling points than the default horizon: only a livelock if ten times as many do not suffice either
+                rr = lbzx.run(c.variant, c.args, dev=k['dev'], stdin_path=path, policy=k['policy'], timeout=600,
+                              **dict(ropts, horizon=59000))
+                k = dict(k)
+                k.update({a: rr[a] for a in ('kind', 'code', 'stdout_hash', 'stdout_len', 'stderr_len', 'inv', 'sanitizer') if a in rr})
+                k['note'] = rr.get('note', '')
+                ropts = dict(ropts, horizon=59000)
+                if rr['kind'] != 'horizon':
+                    chk.cov['executions_longer_than_the_default_horizon'] = chk.cov.get('executions_longer_than_the_default_horizon', 0) + 1
+                    why = c.oracle(k)
+                    if why is None:
+                        continue
+                else:
+                    why = 'no end within 59000 scheduling points (livelock)'
             if k['kind'] == 'timeout':
                 rr = lbzx.run(c.variant, c.args, dev=k['dev'], stdin_path=path, policy=k['policy'],
                               timeout=600, **ropts)
